@@ -1012,3 +1012,254 @@ Definition W_gfa' : gfa :=
 Lemma gfa_colon_refuted :
   gfa_parse (gfa_text W_gfa) = Ok W_gfa' /\ W_gfa' <> W_gfa /\ gfa_text W_gfa' = gfa_text W_gfa.
 Proof. split; [reflexivity | split; [discriminate | reflexivity]]. Qed.
+
+(* ================= generic features on the read path ================= *)
+From Coq Require Import Sorting.Permutation.
+
+(* location_bridges_origin without allow_reversing is a pure test: the answer of Common/Loc.v's bridges, the
+   location untouched *)
+Lemma bridges_origin_plain : forall l, bridges_origin false l = (bridges l, l).
+Proof.
+  intros l. unfold bridges_origin, bridges. destruct (is_compound l); cbn [negb]; [|reflexivity].
+  destruct ((lstrand l =? 1) || (lstrand l =? -1)); cbn [negb andb]; [|reflexivity].
+  destruct (check_order (lstrand l) l); reflexivity.
+Qed.
+
+(* with allow_reversing it is not: complement(join(551..600,1..40)) on a record of 600, as NCBI writes a
+   reverse-strand feature over the origin, is left with its exons in the other order and no longer crosses the origin *)
+Definition W_ncbi_rev : loc := [mkPart 0 40 (-1); mkPart 550 600 (-1)].
+Lemma bridges_origin_reversing_witness :
+  bridges_origin false W_ncbi_rev = (true, W_ncbi_rev) /\
+  bridges_origin true W_ncbi_rev = (false, rev W_ncbi_rev) /\ rev W_ncbi_rev <> W_ncbi_rev /\
+  bridges (rev W_ncbi_rev) = false.
+Proof. repeat split; try reflexivity. discriminate. Qed.
+
+(* ---- remove_redundant_exons keeps a location without nested exons ---- *)
+Definition apart (p q : part) : Prop := part_contains p q = false /\ part_contains q p = false.
+Fixpoint pw (l : list part) : Prop :=
+  match l with [] => True | p :: r => Forall (apart p) r /\ pw r end.
+
+Lemma apart_sym : forall p q, apart p q -> apart q p.
+Proof. intros p q [H1 H2]. split; assumption. Qed.
+
+Lemma nested_free_pw : forall l, nested_free l = true -> pw l.
+Proof.
+  induction l as [|p r IH]; intros H; cbn [nested_free pw] in *; [exact I|].
+  apply andb_true_iff in H. destruct H as [H1 H2]. split; [|exact (IH H2)].
+  apply Forall_forall. intros q Hq. rewrite forallb_forall in H1. specialize (H1 q Hq).
+  apply andb_true_iff in H1. destruct H1 as [A B]. apply negb_true_iff in A. apply negb_true_iff in B. split; assumption.
+Qed.
+
+Lemma insert_by_in : forall A (lt : A -> A -> bool) x l y, In y (insert_by lt x l) -> y = x \/ In y l.
+Proof.
+  intros A lt x. induction l as [|z zs IH]; intros y H; cbn [insert_by] in H.
+  - destruct H as [<-|[]]. left. reflexivity.
+  - destruct (lt x z).
+    + destruct H as [<-|H]; [left; reflexivity|right; exact H].
+    + destruct H as [<-|H]; [right; left; reflexivity|].
+      destruct (IH y H) as [E|I]; [left; exact E|right; right; exact I].
+Qed.
+
+Lemma insert_by_forall : forall A (lt : A -> A -> bool) (P : A -> Prop) x l, P x -> Forall P l -> Forall P (insert_by lt x l).
+Proof.
+  intros A lt P x l Hx Hl. apply Forall_forall. intros y Hy.
+  destruct (insert_by_in A lt x l y Hy) as [->|I]; [exact Hx|]. rewrite Forall_forall in Hl. exact (Hl y I).
+Qed.
+
+Lemma insert_by_pw : forall lt x l, pw l -> Forall (apart x) l -> pw (insert_by lt x l).
+Proof.
+  intros lt x. induction l as [|z zs IH]; intros Hp Hx; cbn [insert_by].
+  - cbn [pw]. split; [apply Forall_nil|exact I].
+  - destruct (lt x z).
+    + cbn [pw]. split; [exact Hx|exact Hp].
+    + cbn [pw] in Hp |- *. destruct Hp as [Hz Hzs]. inversion Hx as [|? ? Hxz Hxzs]; subst.
+      split; [|exact (IH Hzs Hxzs)].
+      apply insert_by_forall; [apply apart_sym; exact Hxz|exact Hz].
+Qed.
+
+Lemma sort_pw_gen : forall lt l acc, pw acc -> pw l -> (forall x y, In x acc -> In y l -> apart x y) ->
+  pw (fold_left (fun a x => insert_by lt x a) l acc).
+Proof.
+  intros lt. induction l as [|p r IH]; intros acc Ha Hl Hx; cbn [fold_left]; [exact Ha|].
+  cbn [pw] in Hl. destruct Hl as [Hp Hr]. apply IH.
+  - apply insert_by_pw; [exact Ha|]. apply Forall_forall. intros z Hz. apply apart_sym. apply Hx; [exact Hz|left; reflexivity].
+  - exact Hr.
+  - intros x y Hxi Hy. destruct (insert_by_in _ lt p acc x Hxi) as [->|I].
+    + rewrite Forall_forall in Hp. exact (Hp y Hy).
+    + apply Hx; [exact I|right; exact Hy].
+Qed.
+
+Lemma sort_by_pw : forall lt l, pw l -> pw (sort_by lt l).
+Proof. intros lt l H. unfold sort_by. apply sort_pw_gen; [exact I|exact H|]. intros x y []. Qed.
+
+Lemma insert_by_perm : forall A (lt : A -> A -> bool) x l, Permutation (insert_by lt x l) (x :: l).
+Proof.
+  intros A lt x. induction l as [|y ys IH]; cbn [insert_by]; [apply Permutation_refl|].
+  destruct (lt x y); [apply Permutation_refl|].
+  apply Permutation_trans with (y :: x :: ys); [apply perm_skip; exact IH|apply perm_swap].
+Qed.
+Lemma fold_insert_perm : forall A (lt : A -> A -> bool) l acc,
+  Permutation (fold_left (fun acc x => insert_by lt x acc) l acc) (l ++ acc).
+Proof.
+  intros A lt. induction l as [|x xs IH]; intros acc; cbn [fold_left app]; [apply Permutation_refl|].
+  apply Permutation_trans with (xs ++ insert_by lt x acc); [apply IH|].
+  apply Permutation_trans with (xs ++ x :: acc).
+  - apply Permutation_app_head. apply insert_by_perm.
+  - apply Permutation_sym. apply Permutation_middle.
+Qed.
+Lemma sort_by_perm : forall A (lt : A -> A -> bool) l, Permutation (sort_by lt l) l.
+Proof. intros A lt l. unfold sort_by. rewrite <- (app_nil_r l) at 2. apply fold_insert_perm. Qed.
+
+Definition keep_step (parts : list part) (p : part) : list part :=
+  if existsb (fun ex => part_contains ex p) parts then parts else parts ++ [p].
+
+Lemma keep_all : forall s acc, pw s -> (forall x y, In x acc -> In y s -> part_contains x y = false) ->
+  fold_left keep_step s acc = acc ++ s.
+Proof.
+  induction s as [|p r IH]; intros acc Hs Hx; cbn [fold_left]; [rewrite app_nil_r; reflexivity|].
+  cbn [pw] in Hs. destruct Hs as [Hp Hr].
+  assert (E : existsb (fun ex => part_contains ex p) acc = false).
+  { destruct (existsb (fun ex => part_contains ex p) acc) eqn:Ex; [|reflexivity].
+    apply existsb_exists in Ex. destruct Ex as [ex [Hin Hc]]. rewrite (Hx ex p Hin (or_introl eq_refl)) in Hc. discriminate. }
+  unfold keep_step at 2. rewrite E. rewrite (IH (acc ++ [p]) Hr).
+  - rewrite <- app_assoc. reflexivity.
+  - intros x y Hxi Hy. apply in_app_or in Hxi. destruct Hxi as [I|[<-|[]]].
+    + apply Hx; [exact I|right; exact Hy].
+    + rewrite Forall_forall in Hp. exact (proj1 (Hp y Hy)).
+Qed.
+
+Lemma part_eqb_refl : forall p, part_eqb p p = true.
+Proof. intros p. unfold part_eqb. rewrite !Z.eqb_refl. reflexivity. Qed.
+
+Lemma filter_all : forall A (f : A -> bool) l, (forall x, In x l -> f x = true) -> filter f l = l.
+Proof.
+  intros A f. induction l as [|x r IH]; intros H; cbn [filter]; [reflexivity|].
+  rewrite (H x (or_introl eq_refl)). rewrite IH; [reflexivity|]. intros y Hy. apply H. right. exact Hy.
+Qed.
+
+Lemma remove_redundant_keeps : forall l, nested_free l = true -> remove_redundant_exons l = l.
+Proof.
+  intros l H. unfold remove_redundant_exons. destruct (is_compound l) eqn:C; cbn [negb]; [|reflexivity].
+  change (fun (parts : list part) (p : part) =>
+            if existsb (fun ex : part => part_contains ex p) parts then parts else parts ++ [p]) with keep_step.
+  rewrite (keep_all (sort_by size_gt l) []); [|apply sort_by_pw; apply nested_free_pw; exact H|intros x y []].
+  cbn [app].
+  pose proof (sort_by_perm _ size_gt l) as P.
+  assert (L : length (sort_by size_gt l) = length l) by (apply Permutation_length; exact P).
+  assert (F : filter (fun p => existsb (part_eqb p) (sort_by size_gt l)) l = l).
+  { apply filter_all. intros x Hx. apply existsb_exists. exists x. split; [|apply part_eqb_refl].
+    apply (Permutation_in x (Permutation_sym P)). exact Hx. }
+  destruct l as [|a [|b t]]; cbn [is_compound] in C; try discriminate.
+  destruct (sort_by size_gt (a :: b :: t)) as [|x [|y u]]; cbn [length] in L; try discriminate. exact F.
+Qed.
+
+(* a location that a record can hold comes back from Record.from_biopython as it was *)
+Theorem read_keeps_location : forall n circular ty l l',
+  writable circular ty l = true -> read_feature_loc n circular ty l = Ok l' -> l' = l.
+Proof.
+  intros n circular ty l l' W R. unfold writable in W. apply andb_true_iff in W. destruct W as [NF G].
+  unfold read_feature_loc in R.
+  destruct (n <? lend l); [discriminate|]. destruct (overlapping_exons l); [discriminate|].
+  destruct (is_compound l && (lstart l =? 0) && (lend l =? n) && negb circular); [discriminate|].
+  rewrite bridges_origin_plain in R. cbn [fst] in R. rewrite (remove_redundant_keeps l NF) in R.
+  assert (E : (if (ty =? T_misc) && bridges l then l else l) = l) by (destruct ((ty =? T_misc) && bridges l); reflexivity).
+  rewrite E in R. clear E.
+  destruct (lstart l <? 0); [discriminate|].
+  rewrite bridges_origin_plain in R. cbn [fst] in R.
+  destruct ((ty =? T_gene) && negb circular) eqn:TG; cbn [negb orb andb] in G, R.
+  - apply negb_true_iff in G. rewrite G in R. rewrite andb_false_r in R. injection R as <-. reflexivity.
+  - injection R as <-. reflexivity.
+Qed.
+
+(* non-vacuity / the seeded location: W_ncbi_rev is writable as a misc_feature on a circular record and is read unchanged *)
+Lemma read_ncbi_witness :
+  writable true T_misc W_ncbi_rev = true /\ read_feature_loc 600 true T_misc W_ncbi_rev = Ok W_ncbi_rev /\
+  bridges W_ncbi_rev = true.
+Proof. repeat split; reflexivity. Qed.
+
+(* what the prefilter is for: an exon inside another one disappears on reading (not a location a record writes) *)
+Lemma read_removes_nested_exon :
+  read_feature_loc 600 true T_misc [mkPart 550 600 1; mkPart 0 40 1; mkPart 10 20 1] = Ok [mkPart 550 600 1; mkPart 0 40 1] /\
+  writable true T_misc [mkPart 550 600 1; mkPart 0 40 1; mkPart 10 20 1] = false.
+Proof. split; reflexivity. Qed.
+
+(* ================= CDS features: order on reload ================= *)
+Lemma mapM_forall2 : forall A B (f : A -> res B) l ks, mapM f l = Ok ks -> Forall2 (fun x k => f x = Ok k) l ks.
+Proof.
+  intros A B f. induction l as [|x r IH]; intros ks H; cbn [mapM] in H.
+  - injection H as <-. apply Forall2_nil.
+  - destruct (f x) as [k|e] eqn:E; cbn [bind] in H; [|discriminate].
+    destruct (mapM f r) as [kr|e] eqn:Er; cbn [bind] in H; [|discriminate]. injection H as <-.
+    apply Forall2_cons; [exact E|exact (IH kr eq_refl)].
+Qed.
+Lemma forall2_mapM : forall A B (f : A -> res B) l ks, Forall2 (fun x k => f x = Ok k) l ks -> mapM f l = Ok ks.
+Proof.
+  intros A B f l ks H. induction H as [|x k r kr E _ IH]; cbn [mapM]; [reflexivity|].
+  rewrite E, IH. reflexivity.
+Qed.
+
+Lemma forall2_length : forall A B (R : A -> B -> Prop) l k, Forall2 R l k -> length l = length k.
+Proof. intros A B R l k H. induction H; cbn [length]; [reflexivity|]. rewrite IHForall2. reflexivity. Qed.
+
+Lemma insert_cds_append : forall acc kacc x kx,
+  Forall2 (fun l k => feature_key l = Ok k) acc kacc -> feature_key x = Ok kx ->
+  (forall ke, In ke kacc -> C04.Model.pair_lt ke kx = true) -> insert_cds (Ok acc) x = Ok (acc ++ [x]).
+Proof.
+  intros acc kacc x kx HF Hx Hlt. unfold insert_cds. cbn [bind].
+  destruct acc as [|a r] eqn:Ea; [reflexivity|]. rewrite <- Ea in *.
+  rewrite Hx. cbn [bind]. rewrite (forall2_mapM _ _ _ _ _ HF). cbn [bind].
+  rewrite (bisect_left_all _ (fun ke => C04.Model.pair_lt ke kx) kacc Hlt).
+  rewrite <- (forall2_length _ _ _ _ _ HF). rewrite insert_at_end. reflexivity.
+Qed.
+
+Lemma cds_reload_gen : forall items kitems, Forall2 (fun l k => feature_key l = Ok k) items kitems ->
+  forall acc kacc, Forall2 (fun l k => feature_key l = Ok k) acc kacc ->
+  strictly_sorted C04.Model.pair_lt (kacc ++ kitems) = true ->
+  fold_left insert_cds items (Ok acc) = Ok (acc ++ items).
+Proof.
+  intros items kitems H. induction H as [|x kx r kr Hx Hr IH]; intros acc kacc Ha Hs; cbn [fold_left].
+  - rewrite app_nil_r. reflexivity.
+  - rewrite (insert_cds_append acc kacc x kx Ha Hx (strictly_sorted_app_inv _ _ kacc kx kr Hs)).
+    replace (acc ++ x :: r) with ((acc ++ [x]) ++ r) by (rewrite <- app_assoc; reflexivity).
+    apply (IH (acc ++ [x]) (kacc ++ [kx])).
+    + apply Forall2_app; [exact Ha|apply Forall2_cons; [exact Hx|apply Forall2_nil]].
+    + rewrite <- app_assoc. exact Hs.
+Qed.
+
+(* CDS features whose sort keys strictly increase are re-added in the same order *)
+Theorem cds_order_kept : forall locs keys, mapM feature_key locs = Ok keys ->
+  strictly_sorted C04.Model.pair_lt keys = true -> cds_reload locs = Ok locs.
+Proof.
+  intros locs keys Hk Hs. unfold cds_reload.
+  exact (cds_reload_gen locs keys (mapM_forall2 _ _ _ _ _ Hk) [] [] (Forall2_nil _) Hs).
+Qed.
+
+(* two transcripts of one gene: same start (and whatever end), different exon structure with different total length:
+   their sort keys differ, one is strictly before the other *)
+Theorem alt_transcripts_ordered : forall a b, bridges a = false -> bridges b = false ->
+  lstart a = lstart b -> llen a <> llen b ->
+  exists ka kb, feature_key a = Ok ka /\ feature_key b = Ok kb /\
+                (C04.Model.pair_lt ka kb = true /\ C04.Model.pair_lt kb ka = false \/
+                 C04.Model.pair_lt kb ka = true /\ C04.Model.pair_lt ka kb = false).
+Proof.
+  intros a b Ha Hb Hs Hl. unfold feature_key, C04.Model.cmp_key. rewrite Ha, Hb.
+  eexists. eexists. split; [reflexivity|]. split; [reflexivity|].
+  unfold C04.Model.pair_lt. cbn [fst snd]. rewrite Hs. clear - Hl. lia.
+Qed.
+
+(* two alternative transcripts (join(301..360,501..560,701..760) and join(301..360,701..760)): whichever arrives first,
+   the shorter one is stored first and the stored list is re-read as itself *)
+Definition W_t1 : loc := [mkPart 300 360 1; mkPart 500 560 1; mkPart 700 760 1].
+Definition W_t2 : loc := [mkPart 300 360 1; mkPart 700 760 1].
+Lemma alt_transcripts_witness :
+  cds_reload [W_t1; W_t2] = Ok [W_t2; W_t1] /\ cds_reload [W_t2; W_t1] = Ok [W_t2; W_t1] /\
+  lstart W_t1 = lstart W_t2 /\ lend W_t1 = lend W_t2.
+Proof. repeat split; reflexivity. Qed.
+
+(* equal keys (same start, same total length): the later arrival is stored first, so the stored order flips on every
+   reload (known finding equal_key_genes_order) *)
+Lemma cds_equal_keys_refuted :
+  exists a b, feature_key a = feature_key b /\ cds_reload [a; b] = Ok [b; a] /\ cds_reload [b; a] = Ok [a; b] /\ a <> b.
+Proof.
+  exists [mkPart 10 40 1], [mkPart 10 40 (-1)]. repeat split; try reflexivity. discriminate.
+Qed.
